@@ -32,9 +32,7 @@ pub fn map_key_encodings(b: &[u8]) -> Option<Vec<Vec<u8>>> {
     }
     let ib = *b.first()?;
     if ib >> 5 != 5 { return None; }
-    let n = (ib & 0x1f) as usize;
-    if n > 23 { return None; }
-    let mut p = 1;
+    let (n, mut p) = match ib & 0x1f { x @ 0..=23 => (x as usize, 1usize), 24 => (*b.get(1)? as usize, 2), 25 => (u16::from_be_bytes([*b.get(1)?, *b.get(2)?]) as usize, 3), _ => return None };
     let mut keys = vec![];
     for _ in 0..n {
         let kl = item_len(b.get(p..)?)?;
